@@ -26,6 +26,14 @@ class _Return(Exception):
         self.value = value
 
 
+class _Continue(Exception):
+    pass
+
+
+class _Break(Exception):
+    pass
+
+
 def truthy(v) -> bool:
     if v == NONE:
         return False
@@ -73,14 +81,31 @@ class Xform:
         if isinstance(s, ast.If):
             self.block(s.body if self.test(s.test, env) else s.orelse, env)
             return
-        if isinstance(s, ast.For) and isinstance(s.target, ast.Name) and not s.orelse:
+        if isinstance(s, ast.For) and not s.orelse and (isinstance(s.target, ast.Name) or (isinstance(s.target, ast.Tuple) and all(isinstance(x, ast.Name) for x in s.target.elts))):
             items = self.const(s.iter, env)
+            if isinstance(items, dict):
+                items = tuple(items)
             if not isinstance(items, (tuple, list, set, frozenset)):
                 raise AnalysisError(f"dictxform: cannot enumerate `{norm(s.iter)}`")
             for it in (sorted(items) if isinstance(items, (set, frozenset)) else items):
-                env[s.target.id] = it
-                self.block(s.body, env)
+                if isinstance(s.target, ast.Name):
+                    env[s.target.id] = it
+                else:
+                    if not isinstance(it, (tuple, list)) or len(it) != len(s.target.elts):
+                        raise AnalysisError(f"dictxform: cannot unpack an element of `{norm(s.iter)}`")
+                    for nm, v_ in zip(s.target.elts, it):
+                        env[nm.id] = v_
+                try:
+                    self.block(s.body, env)
+                except _Continue:
+                    continue
+                except _Break:
+                    break
             return
+        if isinstance(s, ast.Continue):
+            raise _Continue
+        if isinstance(s, ast.Break):
+            raise _Break
         if isinstance(s, ast.Assign) and len(s.targets) == 1:
             t = s.targets[0]
             if isinstance(t, ast.Subscript) and self._is_d(t.value):
@@ -122,6 +147,11 @@ class Xform:
             return env[e.id][1][1]  # a local bound to a constant (e.g. a parameter of an inlined helper)
         if isinstance(e, (ast.Tuple, ast.List)):
             return tuple(self.const(x, env) for x in e.elts)
+        if isinstance(e, ast.Call) and isinstance(e.func, ast.Attribute) and e.func.attr in ("items", "keys", "values") and not e.args and not e.keywords:
+            base = self.const(e.func.value, env)
+            if isinstance(base, dict):
+                return tuple(base.items()) if e.func.attr == "items" else tuple(base) if e.func.attr == "keys" else tuple(base.values())
+            raise AnalysisError(f"dictxform: `{norm(e)}` is not a view of a constant mapping")
         try:
             return self.ctx.folder.plain(self.ctx.folder.fold(self.f.module, e))
         except Unfoldable as err:
@@ -198,6 +228,8 @@ class Xform:
                 else:
                     r = va == vb
                 return r if isinstance(op, ast.Eq) else not r
+        if isinstance(e, ast.Name) and e.id in env and not (isinstance(env[e.id], tuple) and env[e.id][:1] == ("val",)):
+            return bool(env[e.id])
         if isinstance(e, (ast.Subscript, ast.Name, ast.Call)):
             return truthy(self.expr(e, env))
         raise AnalysisError(f"dictxform: test `{norm(e)[:60]}` in {self.f.qualname} not modelled")
